@@ -1,6 +1,7 @@
 //! tvh — the tsrun verification harness. One binary, one subcommand per engine.
 mod common;
 mod run;
+mod c05;
 mod c13;
 mod c15;
 mod c18;
@@ -15,6 +16,7 @@ fn main() {
     // subcommands run on the main thread with the ordinary 8 MiB stack.
     match sub {
         "run" => run::main(&rest),
+        "c05" => c05::main(&rest),
         "c13" => c13::main(&rest),
         "c15" => c15::main(&rest),
         "c18" => c18::main(&rest),
